@@ -137,6 +137,7 @@ func main() {
 	c.Rule += " part 5: two revisions of unrelated providers reconciled by ONE roles.Reconciler: A parked before each of its API calls / inside the validator, B runs to completion, A resumes; all ClusterRoles must equal those of the sequential run A;B on a copy of the cluster."
 	c.Rule += " " + "Part 4 shrinks the set of provider deployments: the binding loses the subject."
 	c.Rule += " " + "A fifth of the XRDs carry an object name other than <plural>.<group>."
+	c.Rule += " " + "Family members that are older revisions of the same Provider object from another organisation (parent-package label)."
 	c.Assumptions = []string{
 		"Kubernetes RBAC semantics are those of RuleAllows/VerbMatches/APIGroupMatches/ResourceMatches/ResourceNameMatches/NonResourceURLMatches as documented; the oracle re-implements them",
 		"a concrete universe built from all tokens of a pair plus one fresh token per dimension is a complete model because matching only compares tokens for equality or a path against a literal prefix",
